@@ -210,6 +210,17 @@ NEEDS = {
  'C19-4B': ('validate() remembers the token it last got 204 for', 'validate, sign_out, validate on one object'),
  'C20-4A': ('flag tables cached per (module, qualname)', 'two generated flag enums with the same qualified name'),
  'C20-4B': ('MapSet(*maps) skips maps with a falsy id', 'a tracker constructed from a map with id 0'),
+ # round 5 (one change each, ten connection-level properties)
+ 'C01-5A': ('frame buffer rewound instead of reset after inflating', 'a compressed frame longer than its plain form and a packet ending in a trailing byte array'),
+ 'C09-5A': ('login name captured at construction', 'a username or token profile that changes between construction and connect()'),
+ 'C10-5A': ('PluginResponsePacket infers successful from bool(data)', 'a handler reply with empty data and no explicit successful'),
+ 'C11-5A': ('except around the flush in disconnect() narrowed to BrokenPipeError', 'a reply still queued at the disconnect packet and the peer answering with a reset'),
+ 'C12-5A': ('disconnect(immediate=True) shuts the socket down before taking the lock', 'a writer preempted between the two sends of a frame'),
+ 'C13-5A': ('50-packet limit tested after the read', 'more than 50 packets handled in one lap'),
+ 'C14-5A': ('exception recorded early and reset by _connect()', 'a handler that reconnects and returns'),
+ 'C15-5A': ('failed write pass clears connected', 'the server closing the status connection before the query is written'),
+ 'C16-5A': ('final check-and-disconnect of _handle_exception no longer under the lock', "a user connect() in the window at the end of a failing thread's handling"),
+ 'C18-5A': ('cipher installed only if an "encrypted" flag is clear; the flag survives an abnormal end', 'a handler that reconnects with connect() after an encrypted session died'),
 }
 
 
